@@ -306,7 +306,7 @@ public:
 
     if (v0 < 0 && v1 > 0 && (v0 < std::numeric_limits<base_t>::min() + v1))
       return std::numeric_limits<base_t>::min();
-    if (v0 > 0 && v1 < 0 && (v0 > std::numeric_limits<base_t>::max() + v1))
+    if (v0 >= 0 && v1 < 0 && (v0 > std::numeric_limits<base_t>::max() + v1))
       return std::numeric_limits<base_t>::max();
 
     return v0 - v1;
